@@ -1,11 +1,8 @@
-use ivp::prelude::*;
-struct P{kf:f64,kb:f64}
-impl IVP for P { fn ode(&self, _x: f64, y: &[f64], dy: &mut [f64]) { let fl=self.kf*y[0]-self.kb*y[1]; dy[0]=-fl; dy[1]=fl; } }
+use std::time::Instant;
 fn main(){
-    let kf=10f64.powf(6.138356); let kb=0.795739*kf*0.1;
-    for m in [Method::BDF, Method::RADAU] {
-    let o=Options::builder().method(m).rtol(2.777378057091533e-05).atol(2.777378057091533e-05*0.005273804178760979).max_steps(200000).build();
-    let s=solve_ivp(&P{kf,kb},-10.0,-10.0+3.8050195,&[0.0987, 0.902564],o).unwrap();
-    println!("{:?} status={:?} nacc={} nrej={} nfev={} njev={} nlu={}",m,s.status,s.naccpt,s.nrejct,s.nfev,s.njev,s.nlu);
+    for (name,data) in [("zeros10", vec![0u8;10]), ("ff200", vec![0xffu8;200]), ("mixed", (0..300u32).map(|i| (i*37%251) as u8).collect::<Vec<u8>>()), ("empty", vec![])] {
+        let t=Instant::now();
+        let r=vf::fuzz_one("C16", &data);
+        println!("{} -> {:?} in {:?}", name, r.map(|x| x.1), t.elapsed());
     }
 }
